@@ -334,11 +334,94 @@ func genTree(r *Rng, items []int, side string, depth int) (toks []string, count 
 	return
 }
 
+// recoverPositionProbes (oracle only): WithRecover is one more interceptor, at the position where
+// it was declared. With a panicking handler, interceptors declared before it see the call return
+// (with the converted error), interceptors declared after it see the panic pass through.
+func recoverPositionProbes(c *Ctx) {
+	type shape struct {
+		name string
+		opts func(mk func(id int) connect.Interceptor, rec connect.HandlerOption) []connect.HandlerOption
+		pre  []int
+		post []int
+	}
+	shapes := []shape{
+		{"[1] R [2]", func(mk func(int) connect.Interceptor, rec connect.HandlerOption) []connect.HandlerOption {
+			return []connect.HandlerOption{connect.WithInterceptors(mk(1)), rec, connect.WithInterceptors(mk(2))}
+		}, []int{1}, []int{2}},
+		{"[1 2] R [3]", func(mk func(int) connect.Interceptor, rec connect.HandlerOption) []connect.HandlerOption {
+			return []connect.HandlerOption{connect.WithInterceptors(mk(1), mk(2)), rec, connect.WithInterceptors(mk(3))}
+		}, []int{1, 2}, []int{3}},
+		{"[1] [2] R", func(mk func(int) connect.Interceptor, rec connect.HandlerOption) []connect.HandlerOption {
+			return []connect.HandlerOption{connect.WithInterceptors(mk(1)), connect.WithInterceptors(mk(2)), rec}
+		}, []int{1, 2}, nil},
+		{"R [1] [2 3]", func(mk func(int) connect.Interceptor, rec connect.HandlerOption) []connect.HandlerOption {
+			return []connect.HandlerOption{rec, connect.WithInterceptors(mk(1)), connect.WithInterceptors(mk(2), mk(3))}
+		}, nil, []int{1, 2, 3}},
+		{"G{[1] R} [2]", func(mk func(int) connect.Interceptor, rec connect.HandlerOption) []connect.HandlerOption {
+			return []connect.HandlerOption{connect.WithHandlerOptions(connect.WithInterceptors(mk(1)), rec), connect.WithInterceptors(mk(2))}
+		}, []int{1}, []int{2}},
+		{"[1] G{R [2]} [3]", func(mk func(int) connect.Interceptor, rec connect.HandlerOption) []connect.HandlerOption {
+			return []connect.HandlerOption{connect.WithInterceptors(mk(1)), connect.WithHandlerOptions(rec, connect.WithInterceptors(mk(2))), connect.WithInterceptors(mk(3))}
+		}, []int{1}, []int{2, 3}},
+	}
+	ids := func(xs []int) string {
+		if len(xs) == 0 {
+			return "-"
+		}
+		var p []string
+		for _, x := range xs {
+			p = append(p, strconv.Itoa(x))
+		}
+		return strings.Join(p, ",")
+	}
+	for _, sh := range shapes {
+		for _, kind := range []string{"unary", "stream"} {
+			log := &eventLog{}
+			recovered := 0
+			rec := connect.WithRecover(func(context.Context, connect.Spec, http.Header, any) error {
+				recovered++
+				return connect.NewError(connect.CodeDataLoss, errors.New("recovered"))
+			})
+			hopts := sh.opts(func(id int) connect.Interceptor { return &logIcpt{id: id, log: log} }, rec)
+			var h http.Handler
+			if kind == "unary" {
+				h = connect.NewUnaryHandler("/s/m", func(context.Context, *connect.Request[emptypb.Empty]) (*connect.Response[emptypb.Empty], error) {
+					panic("boom")
+				}, hopts...)
+			} else {
+				h = connect.NewServerStreamHandler("/s/m", func(context.Context, *connect.Request[emptypb.Empty], *connect.ServerStream[emptypb.Empty]) error {
+					panic("boom")
+				}, hopts...)
+			}
+			desc := fmt.Sprintf("handler options %s, %s handler that panics", sh.name, kind)
+			got := safely(func() string {
+				ic := &inprocClient{h: h}
+				cl := connect.NewClient[emptypb.Empty, emptypb.Empty](ic, "http://h/s/m")
+				if kind == "unary" {
+					_, _ = cl.CallUnary(context.Background(), connect.NewRequest(&emptypb.Empty{}))
+				} else if s, err := cl.CallServerStream(context.Background(), connect.NewRequest(&emptypb.Empty{})); err == nil {
+					for s.Receive() {
+					}
+					_ = s.Close()
+				}
+				return fmt.Sprintf("in=%s out=%s recovered=%d escaped=%v", idsOf(log.events, "in"), idsOf(log.events, "out"), recovered, ic.panicked)
+			})
+			all := append(append([]int{}, sh.pre...), sh.post...)
+			want := fmt.Sprintf("in=%s out=%s recovered=1 escaped=false", ids(all), reverseIDs(ids(sh.pre)))
+			c.Count("icpt:recover-position")
+			if got != want {
+				c.Fail("icpt-recover-position", desc, got, "WithRecover must sit in the chain where it was declared: want "+want)
+			}
+		}
+	}
+}
+
 func streamIcpt(c *Ctx) {
 	if replayOp != "" {
 		icptOp(c, replayOp)
 		return
 	}
+	recoverPositionProbes(c)
 	r := c.Rng
 	maxLen := 4
 	reps := 3
